@@ -249,8 +249,15 @@ func run(c *harness.Ctx, i int) {
 		cats[o.category] = true
 	}
 	opt := desync.StoreOptions{Uncompressed: uncompressed, N: 2, ErrorRetry: 0}
+	// local stores are sometimes addressed through a symlink to the directory
+	addr := b.dir
+	if strings.HasPrefix(kind, "local") && rng.Intn(4) == 0 {
+		addr = filepath.Join(dir, "store-link")
+		os.Symlink(b.dir, addr)
+		cats["via-symlink"] = true
+	}
 	cfgFile := filepath.Join(dir, "config.json")
-	dsu.WriteFile(cfgFile, []byte(fmt.Sprintf(`{"store-options": {%q: {"uncompressed": %v}}}`, b.dir, uncompressed)))
+	dsu.WriteFile(cfgFile, []byte(fmt.Sprintf(`{"store-options": {%q: {"uncompressed": %v}}}`, addr, uncompressed)))
 	before := b.list()
 
 	if op == "prune" {
@@ -281,7 +288,7 @@ func run(c *harness.Ctx, i int) {
 		var err error
 		switch kind {
 		case "local":
-			s, e := desync.NewLocalStore(b.dir, opt)
+			s, e := desync.NewLocalStore(addr, opt)
 			dsu.Must(e)
 			err = s.Prune(context.Background(), keep)
 		case "local-cli":
@@ -299,7 +306,7 @@ func run(c *harness.Ctx, i int) {
 			}
 			idxFile := filepath.Join(dir, "keep.caibx")
 			dsu.Must(dsu.WriteIndex(idxFile, idx))
-			cmd := exec.Command(cli, "--config", cfgFile, "prune", "-y", "-s", b.dir, idxFile)
+			cmd := exec.Command(cli, "--config", cfgFile, "prune", "-y", "-s", addr, idxFile)
 			cmd.Env = append(os.Environ(), "HOME="+dir)
 			var out []byte
 			out, err = cmd.CombinedOutput()
@@ -421,12 +428,12 @@ func run(c *harness.Ctx, i int) {
 	var msgs bytes.Buffer
 	var err error
 	if kind == "local" {
-		s, e := desync.NewLocalStore(b.dir, opt)
+		s, e := desync.NewLocalStore(addr, opt)
 		dsu.Must(e)
 		// Verify writes its messages from n goroutines: give it a writer that tolerates that (as os.Stderr does)
 		err = s.Verify(context.Background(), n, repair, &lockedWriter{w: &msgs})
 	} else {
-		args := []string{"--config", cfgFile, "verify", "-n", fmt.Sprint(n), "-s", b.dir}
+		args := []string{"--config", cfgFile, "verify", "-n", fmt.Sprint(n), "-s", addr}
 		if repair {
 			args = append(args, "-r")
 		}
